@@ -176,14 +176,16 @@ fn gen_acol(o: &GenOpts) -> BoxedStrategy<ACol> {
         tys.push(4);
     }
     let defaults = o.defaults;
-    (proptest::sample::select(tys), prop::bool::weighted(0.15), prop::option::weighted(if defaults { 0.2 } else { 0.0 }, (0u8..12).prop_map(AVal::Pool)))
+    let def: BoxedStrategy<Option<AVal>> = if defaults { prop::option::weighted(0.2, (0u8..12).prop_map(AVal::Pool)).boxed() } else { Just(None).boxed() };
+    (proptest::sample::select(tys), prop::bool::weighted(0.15), def)
         .prop_map(|(ty, not_null, default)| ACol { ty, not_null, default })
         .boxed()
 }
 
 pub fn gen_create(o: &GenOpts) -> BoxedStrategy<AStmt> {
-    let cons = if o.constraints { 0.6 } else { 0.0 };
-    (0u8..3, prop::collection::vec(gen_acol(o), 1..5), prop::option::weighted(cons, 0u8..(if o.composite_keys { 4 } else { 2 })), prop::option::weighted(cons * 0.4, 0u8..4))
+    let maxpk = if o.composite_keys { 4u8 } else { 2u8 };
+    let (pk, uq): (BoxedStrategy<Option<u8>>, BoxedStrategy<Option<u8>>) = if o.constraints { (prop::option::weighted(0.6, 0u8..maxpk).boxed(), prop::option::weighted(0.24, 0u8..4).boxed()) } else { (Just(None).boxed(), Just(None).boxed()) };
+    (0u8..3, prop::collection::vec(gen_acol(o), 1..5), pk, uq)
         .prop_map(|(name, cols, pk, uniq)| AStmt::Create { name, cols, pk, uniq })
         .boxed()
 }
@@ -393,6 +395,7 @@ pub fn stmt_tags(s: &Stmt, view: &State) -> Vec<String> {
                 let mut k = u64::MAX / 2;
                 if n > 1 && matches!(exec_model(&mut v, &mut k, s).0, MOut::Err(..)) {
                     t.push("stmt.fails_midway".into());
+                    t.push("update.fails_midway".into());
                 }
             }
             if let Some(tb) = view.tables.get(table) {
@@ -632,6 +635,9 @@ pub struct Interp {
     pub poisoned_keys: BTreeSet<(String, usize, String)>,
     /// committed rows whose DELETE was rolled back: (table, model row id)
     pub poisoned_rows: BTreeSet<(String, u64)>,
+    /// rows that carry more than one version (were updated at least once): (table, model row id)
+    pub updated_rows: BTreeSet<(String, u64)>,
+    checks_done: usize,
 }
 
 pub fn err_is_unknown_object(text: &str) -> bool {
@@ -661,6 +667,8 @@ impl Interp {
             verbose: std::env::var("VERIF_TRACE").is_ok(),
             poisoned_keys: BTreeSet::new(),
             poisoned_rows: BTreeSet::new(),
+            updated_rows: BTreeSet::new(),
+            checks_done: 0,
         })
     }
 
@@ -844,6 +852,12 @@ impl Interp {
     }
 
     fn full_check(&mut self, at: &str) -> Option<Failure> {
+        // Vary the number of transaction ids consumed between steps (the fixed three reads below would
+        // otherwise pin every session's id to one residue class): a few extra reads, a pure function of the history length.
+        self.checks_done += 1;
+        for _ in 0..(self.checks_done * 7 / 3) % 4 {
+            let _ = self.db.exec("SELECT * FROM t0");
+        }
         let view = self.model.committed.clone();
         let r = compare_state(&mut self.db, &view, at);
         self.after_read();
@@ -884,6 +898,15 @@ impl Interp {
                 let eng = self.db.exec(&sql);
                 let before = self.model.committed.clone();
                 let m = self.model.autocommit(&s);
+                if let (Stmt::Update { table, pred, .. }, MOut::Affected(_)) = (&s, &m) {
+                    if let Some(tb) = before.tables.get(table) {
+                        for (id, r) in &tb.rows {
+                            if pred.eval(r) == Some(true) {
+                                self.updated_rows.insert((table.clone(), *id));
+                            }
+                        }
+                    }
+                }
                 if matches!(m, MOut::Err(..)) {
                     self.tags.insert("failed_stmt".into());
                     self.last_step_kind = "failed_stmt";
@@ -944,6 +967,13 @@ impl Interp {
                 let mut tags = stmt_tags(&stmt, &txn.view);
                 tags.push("txn.session".into());
                 tags.extend(self.history_tags(&stmt, &txn.view));
+                if let Stmt::Delete { table, pred } = &stmt {
+                    if let Some(tb) = txn.view.tables.get(table) {
+                        if tb.rows.iter().any(|(id, r)| self.updated_rows.contains(&(table.clone(), *id)) && pred.eval(r) == Some(true)) {
+                            tags.push("txn.delete_of_updated_row_in_session".into());
+                        }
+                    }
+                }
                 for t in tags.clone() {
                     if t.starts_with("ddl.") || t == "stmt.fails_midway" {
                         tags.push(format!("{t}_in_txn"));
@@ -958,7 +988,29 @@ impl Interp {
                 let eng = self.db.sexec(*s, &sql);
                 let mut txn = self.txns.remove(s).unwrap();
                 let view_before = txn.view.clone();
+                if self.check_outputs {
+                    // a statement the model predicts to fail: make sure the session's view was right before it,
+                    // so that a wrong view afterwards can be blamed on the failed statement
+                    let will_fail = {
+                        let mut v = txn.view.clone();
+                        let mut k = u64::MAX / 2;
+                        matches!(exec_model(&mut v, &mut k, &stmt).0, MOut::Err(..))
+                    };
+                    if will_fail {
+                        self.txns.insert(*s, txn);
+                        if let Some(f) = self.session_view_check(*s, &format!("before the failing statement at step {i}")) {
+                            return Some(Failure { clause: format!("pre_divergence.{}", f.clause), ..f });
+                        }
+                        txn = self.txns.remove(s).unwrap();
+                    }
+                }
+                let n_eff = txn.effects.len();
                 let m = self.model.exec(&mut txn, &stmt);
+                for e in &txn.effects[n_eff..] {
+                    if let Effect::Update { table, id, .. } = e {
+                        self.updated_rows.insert((table.clone(), *id));
+                    }
+                }
                 let failed = matches!(m, MOut::Err(..));
                 if failed {
                     self.tags.insert("failed_stmt".into());
@@ -1081,6 +1133,13 @@ impl Interp {
                     for tg in self.history_tags(&s, &t.view) {
                         tags.push(tg);
                     }
+                    if let Stmt::Delete { table, pred } = &s {
+                        if let Some(tb) = t.view.tables.get(table) {
+                            if tb.rows.iter().any(|(id, r)| self.updated_rows.contains(&(table.clone(), *id)) && pred.eval(r) == Some(true)) {
+                                tags.push("txn.delete_of_updated_row_in_session".into());
+                            }
+                        }
+                    }
                     for tg in stmt_tags(&s, &t.view) {
                         if tg.starts_with("ddl.") {
                             tags.push(format!("{tg}_in_txn"));
@@ -1135,6 +1194,11 @@ impl Interp {
                     (Ok(_), true) => return Some(self.fail("statement_should_fail", format!("step {i}: batch with a failing member succeeded: {all_sqls:?}"))),
                     (Err(e), false) => return Some(self.fail("spurious_error", format!("step {i}: batch failed: {}", e.text()))),
                     (Ok(eouts), false) => {
+                        for e in &t.effects {
+                            if let Effect::Update { table, id, .. } = e {
+                                self.updated_rows.insert((table.clone(), *id));
+                            }
+                        }
                         self.model.commit(t);
                         if self.check_outputs {
                             for ((sql, e), m) in sqls.iter().zip(eouts).zip(&outs) {
@@ -1146,7 +1210,9 @@ impl Interp {
                     }
                     (Err(_), true) => {
                         self.last_step_kind = "failed_stmt";
-                        self.pending_noncommit_write = true;
+                        if t.wrote {
+                            self.pending_noncommit_write = true;
+                        }
                         let (eff, view) = (t.effects.clone(), t.view.clone());
                         self.poison_from_effects(&eff, &view);
                         if let Some((fs, fv)) = &failing {
